@@ -171,6 +171,20 @@ def extra_checks(tier, seed):
             return est.estimate_error_norm(est.init_error(), s0, s1, dt=0.1, atol=1e-3, rtol=1e-3, damp=0.0)
 
         add(f"{tag}.error_residual_std(constraint shape != state shape)", run_est)
+        # 9b. the same with a one-dimensional state (a one-element reference must not be broadcast against a longer error)
+        for lift in (1, 2):
+            tc1 = [jnp.ones((1,)) * (i + 1.0) for i in range(2 + lift)]
+            lifted1 = ode.jet_lift(lift_by=lift)
+            for cname, mkc in (("ts0", ssm.constraint_ode_ts0), ("ts1", ssm.constraint_ode_ts1)):
+                def run_est1(mkc=mkc, lifted1=lifted1, tc1=tc1, ssm=ssm):
+                    con = mkc(lifted1)
+                    est1 = pd.error_residual_std(constraint=con)
+                    slv1 = pd.solver(constraint=con, strategy=pd.strategy_filter())
+                    s0 = slv1.init(t=0.0, u=ssm.prior_wiener_integrated(tc1), damp=0.0)
+                    s1 = slv1.step(s0, dt=0.1, damp=0.0)
+                    return est1.estimate_error_norm(est1.init_error(), s0, s1, dt=0.1, atol=1e-3, rtol=1e-3, damp=0.0)
+
+                add(f"{tag}.error_residual_std(d=1,lift_by={lift},{cname}: constraint shape != state shape)", run_est1)
 
     # dense only: exponential prior whose ODE order does not match the state
     dense = pd.state_space_model_dense()
